@@ -21,6 +21,9 @@ type stepRec struct {
 	Index    int                       `json:"index"`
 	Edit     e2e.Edit                  `json:"edit"`
 	Rm       bool                      `json:"rm_plz_out"`
+	Inv      e2e.C11Inv                `json:"invocation"`
+	Replace  bool                      `json:"files_replaced"` // changed files were replaced (new inode) rather than rewritten in place
+	SameIno  map[string]bool           `json:"rewritten_same_inode,omitempty"`
 	Spec     *e2e.C11Spec              `json:"spec"`
 	Exit     int                       `json:"exit"`
 	Clean    int                       `json:"clean_exit"`
@@ -45,8 +48,18 @@ type plan struct {
 	kind    string
 	cacheOn bool
 	initial *e2e.C11Spec
-	next    func(i int, cur *e2e.C11Spec, past []*e2e.C11Spec) (spec *e2e.C11Spec, ed e2e.Edit, rm bool)
+	next    func(i int, cur *e2e.C11Spec, past []*e2e.C11Spec) move
 	steps   int
+	initialInv e2e.C11Inv // how the first invocation is made
+}
+
+// a move is one step of a plan: the next tree, how its changed files are written, and how plz is invoked
+type move struct {
+	spec    *e2e.C11Spec
+	ed      e2e.Edit
+	rm      bool
+	inv     e2e.C11Inv
+	replace bool
 }
 
 // at most this many plz processes at a time, over all histories
@@ -72,25 +85,25 @@ func runPlan(idx int, base string, p plan) history {
 	// the successive trees do not depend on what plz does, so they are computed first ...
 	cur := p.initial
 	var past []*e2e.C11Spec
-	var edits []e2e.Edit
-	var rms []bool
+	var moves []move
 	for i := 0; i <= p.steps; i++ {
-		ed, rm := e2e.Edit{Kind: "initial"}, false
+		m := move{spec: cur, ed: e2e.Edit{Kind: "initial"}, inv: p.initialInv}
 		if i > 0 {
-			cur, ed, rm = p.next(i, cur.Clone(), past)
+			m = p.next(i, cur.Clone(), past)
+			cur = m.spec
 		}
 		past = append(past, cur.Clone())
-		edits, rms = append(edits, ed), append(rms, rm)
+		moves = append(moves, m)
 	}
-	// ... and the fresh run of every distinct tree (a clean copy: no plz-out, no cache) goes on concurrently
+	// ... and the fresh run of every distinct (tree, invocation) (a clean copy: no plz-out, no cache) goes on concurrently
 	fresh := map[string]*freshRes{}
-	keyOf := func(s *e2e.C11Spec) string {
-		js, _ := json.Marshal(s)
+	keyOf := func(i int) string {
+		js, _ := json.Marshal([]any{past[i], moves[i].inv})
 		return string(js)
 	}
 	var wg sync.WaitGroup
 	for i, s := range past {
-		k := keyOf(s)
+		k := keyOf(i)
 		if _, ok := fresh[k]; ok {
 			continue
 		}
@@ -101,18 +114,20 @@ func runPlan(idx int, base string, p plan) history {
 			defer wg.Done()
 			clean := e2e.NewRepo(base, fmt.Sprintf("clean%d", i))
 			clean.Write(s.Spec(clean.LogPath))
-			res := runPlz(clean, "test")
+			res := runPlz(clean, moves[i].inv.PlzArgs()...)
 			fr.out, fr.exit = clean.C11Results(s, res), res.Exit
 			os.RemoveAll(clean.Dir)
 		}(i, s)
 	}
 	for i, s := range past {
-		if rms[i] {
+		m := moves[i]
+		if m.rm {
 			repo.RemovePlzOut()
 		}
+		sameIno := repo.C11WriteFiles(s, m.replace)
 		repo.Write(s.Spec(repo.LogPath))
-		res := runPlz(repo, "test")
-		st := stepRec{Index: i, Edit: edits[i], Rm: rms[i], Spec: s, Exit: res.Exit, Executed: res.Executed, NKeys: map[string]int{}}
+		res := runPlz(repo, m.inv.PlzArgs()...)
+		st := stepRec{Index: i, Edit: m.ed, Rm: m.rm, Inv: m.inv, Replace: m.replace, SameIno: sameIno, Spec: s, Exit: res.Exit, Executed: res.Executed, NKeys: map[string]int{}}
 		st.Inc = repo.C11Results(s, res)
 		for _, t := range s.Tests {
 			st.NKeys[t.Name] = repo.C11CacheKeys(t)
@@ -124,7 +139,7 @@ func runPlan(idx int, base string, p plan) history {
 	}
 	wg.Wait()
 	for i := range h.Steps {
-		fr := fresh[keyOf(past[i])]
+		fr := fresh[keyOf(i)]
 		h.Steps[i].Fresh, h.Steps[i].Clean = fr.out, fr.exit
 	}
 	h.FreshRuns = len(fresh)
@@ -149,17 +164,27 @@ func baseSpec() *e2e.C11Spec {
 		"s1.txt": "bin ok\n", "s2.txt": "more\n", "s3.txt": "bin ok\n",
 		"dd/a.txt": "one\n", "dd/b.txt": "two ok\n",
 		"u.txt": "unrelated\n",
-	}, Gens: []*e2e.C11Gen{{Name: "g0", Out: "x0.txt", Content: "ok"}, {Name: "g1", Out: "x1.txt", Content: "no"}}}
+	}, Gens: []*e2e.C11Gen{{Name: "g0", Out: "x0.txt", Content: "ok"}, {Name: "g1", Out: "x1.txt", Content: "no"}},
+		Groups: []*e2e.C11Group{{Name: "fg0", Srcs: []string{"a.txt", "b.txt"}}, {Name: "fg1", Srcs: []string{"c.txt"}}}}
 }
 
-var dataPool = []string{"a.txt", "b.txt", "c.txt", ":g0", ":g1", "dd"}
+var dataPool = []string{"a.txt", "b.txt", "c.txt", ":g0", ":g1", "dd", ":fg0", ":fg1"}
 
 func genCmd(r *lib.Rng, s *e2e.C11Spec, t *e2e.C11Test) {
-	switch r.Intn(10) {
+	if len(t.Cmds) > 0 { // a dict: one of its entries gets another command
+		i := r.Intn(len(t.Cmds))
+		t.Cmds[i].Op, t.Cmds[i].Arg = genOp(r, s, t)
+		return
+	}
+	t.Op, t.Arg = genOp(r, s, t)
+}
+
+func genOp(r *lib.Rng, s *e2e.C11Spec, t *e2e.C11Test) (string, string) {
+	switch r.Intn(12) {
 	case 0, 1, 2, 3:
-		t.Op, t.Arg = "passif", lib.Pick(r, []string{"ok", "ok", "yes", "two"})
+		return "passif", lib.Pick(r, []string{"ok", "ok", "yes", "two"})
 	case 4:
-		t.Op, t.Arg = "binok", lib.Pick(r, []string{"ok", "more"})
+		return "binok", lib.Pick(r, []string{"ok", "more"})
 	case 5, 6, 7:
 		// a path that exists now, most of the time
 		cands := []string{}
@@ -172,11 +197,28 @@ func genCmd(r *lib.Rng, s *e2e.C11Spec, t *e2e.C11Test) {
 			}
 		}
 		cands = append(cands, "p/x0.txt", "p/dd/a.txt")
-		t.Op, t.Arg = "exists", lib.Pick(r, cands)
+		return "exists", lib.Pick(r, cands)
 	case 8:
-		t.Op, t.Arg = "true", ""
-	default:
-		t.Op, t.Arg = "fail", ""
+		return "true", ""
+	case 9:
+		return "argis", "good"
+	case 10:
+		return "argisnot", "bad"
+	}
+	return "fail", ""
+}
+
+// genDict turns the plain test command of t into a per-config dict whose entry for the default config is
+// that command (most of the time), so that the effective command under the default config is unchanged.
+func genDict(r *lib.Rng, s *e2e.C11Spec, t *e2e.C11Test) {
+	op2, arg2 := genOp(r, s, t)
+	switch r.Intn(4) {
+	case 0, 1:
+		t.Cmds = []e2e.C11Alt{{Config: "opt", Op: t.Op, Arg: t.Arg}, {Config: "dbg", Op: op2, Arg: arg2}}
+	case 2: // Go iterates the map in any order; the BUILD file lists dbg first here
+		t.Cmds = []e2e.C11Alt{{Config: "dbg", Op: op2, Arg: arg2}, {Config: "opt", Op: t.Op, Arg: t.Arg}}
+	default: // no entry for the default config, none for the fallback config: the highest config name wins
+		t.Cmds = []e2e.C11Alt{{Config: "dbg", Op: t.Op, Arg: t.Arg}, {Config: "cover", Op: op2, Arg: arg2}}
 	}
 }
 
@@ -207,6 +249,9 @@ func genSpec(r *lib.Rng) *e2e.C11Spec {
 		lib.Shuffle(r, pool)
 		t.Data = append([]string{}, pool[:r.Range(0, 3)]...)
 		genCmd(r, s, t)
+		if r.Chance(1, 3) {
+			genDict(r, s, t)
+		}
 		s.Tests = append(s.Tests, t)
 	}
 	return s
@@ -231,9 +276,16 @@ func flipWord(r *lib.Rng, old string, n int) string {
 	return lib.Pick(r, []string{"ok\n", "yes ok\n", fmt.Sprintf("ok %d\n", n)})
 }
 
+func cmdDesc(t *e2e.C11Test) string {
+	if len(t.Cmds) == 0 {
+		return t.Op + " " + t.Arg
+	}
+	return fmt.Sprint(t.Cmds)
+}
+
 func randomEdit(r *lib.Rng, s *e2e.C11Spec, n int) e2e.Edit {
 	for attempt := 0; attempt < 40; attempt++ {
-		switch k := lib.Pick(r, []string{"data-content", "data-content", "data-content", "unrelated", "noop", "test-cmd", "test-cmd",
+		switch k := lib.Pick(r, []string{"data-content", "data-content", "data-content", "unrelated", "noop", "test-cmd", "test-cmd", "cmd-form",
 			"src-same-binary", "src-content", "gen-content", "gen-rename", "gen-rename", "dir-entry-rename", "dir-entry-rename", "dir-content",
 			"data-list", "comment", "dir-entry-move"}); k {
 		case "data-content":
@@ -247,11 +299,29 @@ func randomEdit(r *lib.Rng, s *e2e.C11Spec, n int) e2e.Edit {
 			return e2e.Edit{Kind: k}
 		case "test-cmd":
 			t := lib.Pick(r, s.Tests)
-			old := t.Op + " " + t.Arg
+			old := cmdDesc(t)
+			oop, oarg := t.Effective("")
 			genCmd(r, s, t)
-			if t.Op+" "+t.Arg != old {
-				return e2e.Edit{Kind: k, What: fmt.Sprintf("%s: %s -> %s %s", t.Name, old, t.Op, t.Arg)}
+			if cmdDesc(t) != old {
+				kind := "test-cmd"
+				if len(t.Cmds) > 0 {
+					kind = "test-cmd-inactive" // inactive under the default config
+					if nop, narg := t.Effective(""); nop != oop || narg != oarg {
+						kind = "test-cmd-active"
+					}
+				}
+				return e2e.Edit{Kind: kind, What: fmt.Sprintf("%s: %s -> %s", t.Name, old, cmdDesc(t))}
 			}
+		case "cmd-form": // plain string <-> dict; the effective command under the default config is kept
+			t := lib.Pick(r, s.Tests)
+			old := cmdDesc(t)
+			if len(t.Cmds) > 0 {
+				t.Op, t.Arg = t.Effective("")
+				t.Cmds = nil
+			} else {
+				genDict(r, s, t)
+			}
+			return e2e.Edit{Kind: k, What: fmt.Sprintf("%s: %s -> %s", t.Name, old, cmdDesc(t))}
 		case "src-same-binary": // another source with identical content: the binary is rebuilt to the same bytes
 			t := lib.Pick(r, s.Tests)
 			for i, src := range t.Srcs {
@@ -348,38 +418,53 @@ func randomEdit(r *lib.Rng, s *e2e.C11Spec, n int) e2e.Edit {
 	return e2e.Edit{Kind: "noop"}
 }
 
+func randomInv(r *lib.Rng) e2e.C11Inv {
+	inv := e2e.C11Inv{}
+	if r.Chance(1, 5) {
+		inv.Args = []string{lib.Pick(r, []string{"good", "good", "bad"})}
+	}
+	if r.Chance(1, 5) {
+		inv.Config = "dbg"
+	}
+	return inv
+}
+
 func randomPlan(r *lib.Rng, steps int, cacheOn bool) plan {
 	return plan{kind: "random", cacheOn: cacheOn, initial: genSpec(r), steps: steps,
-		next: func(i int, cur *e2e.C11Spec, past []*e2e.C11Spec) (*e2e.C11Spec, e2e.Edit, bool) {
+		next: func(i int, cur *e2e.C11Spec, past []*e2e.C11Spec) move {
+			inv, replace := randomInv(r), r.Chance(1, 2)
 			switch {
 			case r.Chance(1, 8):
-				return cur, e2e.Edit{Kind: "rm-plz-out"}, true
+				return move{spec: cur, ed: e2e.Edit{Kind: "rm-plz-out"}, rm: true, inv: inv, replace: replace}
 			case len(past) > 1 && r.Chance(1, 4):
 				k := r.Intn(len(past) - 1)
-				return past[k].Clone(), e2e.Edit{Kind: "revert", What: fmt.Sprintf("to state %d", k)}, false
+				return move{spec: past[k].Clone(), ed: e2e.Edit{Kind: "revert", What: fmt.Sprintf("to state %d", k)}, inv: inv, replace: replace}
 			}
 			ed := randomEdit(r, cur, i)
-			return cur, ed, false
+			return move{spec: cur, ed: ed, inv: inv, replace: replace}
 		}}
 }
 
 // scripted histories aimed at the boundary of the property
 type scriptStep struct {
-	kind string
-	rm   bool
-	f    func(s *e2e.C11Spec)
+	kind    string
+	rm      bool
+	f       func(s *e2e.C11Spec)
+	args    []string // plz test //p:all -- args
+	config  string   // plz test -c config
+	replace bool     // changed files are replaced (new inode) instead of rewritten in place
 }
 
 func scripted(name string, cacheOn bool, tests []*e2e.C11Test, steps []scriptStep) plan {
 	s := baseSpec()
 	s.Tests = tests
 	return plan{kind: "scripted:" + name, cacheOn: cacheOn, initial: s, steps: len(steps),
-		next: func(i int, cur *e2e.C11Spec, past []*e2e.C11Spec) (*e2e.C11Spec, e2e.Edit, bool) {
+		next: func(i int, cur *e2e.C11Spec, past []*e2e.C11Spec) move {
 			st := steps[i-1]
 			if st.f != nil {
 				st.f(cur)
 			}
-			return cur, e2e.Edit{Kind: st.kind}, st.rm
+			return move{spec: cur, ed: e2e.Edit{Kind: st.kind}, rm: st.rm, inv: e2e.C11Inv{Args: st.args, Config: st.config}, replace: st.replace}
 		}}
 }
 
@@ -434,6 +519,88 @@ func scriptedPlans(thorough bool) []plan {
 		{kind: "gen-content", f: func(s *e2e.C11Spec) { s.Gens[0].Content = "ok" }},
 	}))
 	ps[len(ps)-1].initial.Files["x0.txt"] = "nope\n"
+
+	// ---- test arguments: a run with arguments is neither stored nor may it be the source of a reused result ----
+	good, bad := []string{"good"}, []string{"bad"}
+	for _, cache := range []bool{false, true} {
+		if cache && !thorough {
+			continue
+		}
+		ps = append(ps, scripted("args", cache, []*e2e.C11Test{tst("t0", "argis", "good"), tst("t1", "argisnot", "bad"),
+			tst("t2", "exists", "p/a.txt", "a.txt"), tst("t3", "passif", "ok", "a.txt")}, []scriptStep{
+			{kind: "args", args: good}, // t0 passes with the argument only; nothing of this run may be stored
+			{kind: "noop"},             // plain: t0 must run again and fail
+			{kind: "args", args: good},
+			{kind: "args", args: good},
+			{kind: "args", args: bad}, // t1, t2 fail with this argument (and have a stored plain pass)
+			{kind: "noop"},
+			{kind: "data-content", f: setFile("a.txt", "no\n"), args: good},
+			{kind: "noop"},
+			{kind: "rm-plz-out", rm: true, args: good},
+			{kind: "noop"},
+		}))
+	}
+	// the first invocation of a history has arguments
+	ps = append(ps, scripted("args-first", true, []*e2e.C11Test{tst("t0", "argis", "good"), tst("t1", "passif", "ok", "a.txt")}, []scriptStep{
+		{kind: "noop"},
+		{kind: "args", args: good},
+		{kind: "noop"},
+	}))
+	ps[len(ps)-1].initialInv = e2e.C11Inv{Args: good}
+
+	// ---- data through a filegroup of source files (outputs hard-linked to the sources); files edited in place ----
+	for _, cache := range []bool{false, true} {
+		if cache && !thorough {
+			continue
+		}
+		ps = append(ps, scripted("filegroup-inplace", cache, []*e2e.C11Test{tst("t0", "passif", "ok", ":fg0"), tst("t1", "passif", "yes", ":fg1", ":fg0"),
+			tst("t2", "exists", "p/c.txt", ":fg1"), tst("t3", "passif", "ok", "a.txt")}, []scriptStep{
+			{kind: "noop"}, // the cached run
+			{kind: "data-inplace", f: setFile("a.txt", "no\n")}, // same inode: t0 must run and fail (b.txt = "no")
+			{kind: "noop"},
+			{kind: "data-inplace", f: setFile("a.txt", "ok\n")},
+			{kind: "noop"},
+			{kind: "data-replace", f: setFile("a.txt", "nope\n"), replace: true}, // new inode
+			{kind: "noop"},
+			{kind: "data-inplace", f: setFile("c.txt", "no\n")},
+			{kind: "data-inplace", f: func(s *e2e.C11Spec) { s.Files["a.txt"] = "ok\n"; s.Files["c.txt"] = "yes\n" }},
+			{kind: "noop"},
+			{kind: "data-inplace", f: func(s *e2e.C11Spec) { s.Files["a.txt"] = "n0\n"; s.Files["c.txt"] = "n0\n" }},
+		}))
+	}
+
+	// ---- test_cmd per build config: only the active config's command matters, and it must invalidate ----
+	dict := func(name string, alts ...e2e.C11Alt) *e2e.C11Test {
+		t := tst(name, "fail", "", "a.txt", "c.txt") // a.txt = "ok", c.txt = "yes"
+		t.Cmds = alts
+		return t
+	}
+	alt := func(cfg, op, arg string) e2e.C11Alt { return e2e.C11Alt{Config: cfg, Op: op, Arg: arg} }
+	setAlt := func(ti, ai int, op, arg string) func(*e2e.C11Spec) {
+		return func(s *e2e.C11Spec) { s.Tests[ti].Cmds[ai].Op, s.Tests[ti].Cmds[ai].Arg = op, arg }
+	}
+	for _, cache := range []bool{true, false} {
+		if !cache && !thorough {
+			continue
+		}
+		ps = append(ps, scripted("dict-cmd", cache, []*e2e.C11Test{
+			dict("t0", alt("opt", "passif", "ok"), alt("dbg", "passif", "yes")),
+			dict("t1", alt("dbg", "passif", "ok"), alt("cover", "passif", "yes")), // opt: neither active nor fallback -> highest name (dbg)
+			tst("t2", "passif", "ok", "a.txt", "c.txt")}, []scriptStep{
+			{kind: "noop"},
+			{kind: "test-cmd-inactive", f: setAlt(0, 1, "passif", "nope")},                // dbg edited while opt runs: still cached
+			{kind: "test-cmd-active", f: setAlt(0, 0, "passif", "nope")},                  // opt edited: must run, fails
+			{kind: "config", config: "dbg"},                                                 // dbg command (nope): runs, fails
+			{kind: "test-cmd-active", f: setAlt(0, 1, "passif", "yes"), config: "dbg"},    // dbg edited while dbg runs: passes
+			{kind: "test-cmd-inactive", f: setAlt(0, 0, "passif", "ok"), config: "dbg"},   // opt edited while dbg runs: cached
+			{kind: "noop"},                                                                  // opt again (ok): passes
+			{kind: "test-cmd-active", f: setAlt(1, 0, "passif", "nope")},                  // t1: dbg is its effective command under opt
+			{kind: "test-cmd-inactive", f: setAlt(1, 1, "fail", "")},                      // t1: cover is not
+			{kind: "cmd-form", f: func(s *e2e.C11Spec) { s.Tests[0].Op, s.Tests[0].Arg, s.Tests[0].Cmds = "passif", "ok", nil }}, // dict -> the same plain string: cached
+			{kind: "cmd-form", f: func(s *e2e.C11Spec) { s.Tests[2].Cmds = []e2e.C11Alt{alt("dbg", "fail", ""), alt("opt", "passif", "ok")} }},
+			{kind: "test-cmd-active", f: setAlt(2, 1, "passif", "nope")},
+		}))
+	}
 	return ps
 }
 
@@ -451,25 +618,41 @@ func coqNode(n e2e.C11Node) string {
 	return lib.App("Dir", lib.List(es))
 }
 
-func coqCmd(t *e2e.C11Test) string {
-	switch t.Op {
+func coqCmd(op, arg string) string {
+	switch op {
 	case "passif":
-		return lib.App("TPassIf", lib.Str(t.Arg))
+		return lib.App("TPassIf", lib.Str(arg))
 	case "binok":
-		return lib.App("TBinOk", lib.Str(t.Arg))
+		return lib.App("TBinOk", lib.Str(arg))
 	case "exists":
-		parts := strings.Split(t.Arg, "/")
+		parts := strings.Split(arg, "/")
 		if len(parts) >= 3 {
 			return lib.App("TExists", lib.Str(strings.Join(parts[:2], "/")), lib.Some(lib.Str(strings.Join(parts[2:], "/"))))
 		}
-		return lib.App("TExists", lib.Str(t.Arg), "None")
+		return lib.App("TExists", lib.Str(arg), "None")
 	case "true":
 		return "TTrue"
+	case "argis":
+		return lib.App("TArgIs", lib.Str(arg))
+	case "argisnot":
+		return lib.App("TArgIsNot", lib.Str(arg))
 	}
 	return "TFail"
 }
 
-func coqDef(s *e2e.C11Spec, t *e2e.C11Test, logPath string) string {
+// coqCmds is the test command as the BUILD file has it: one string or the dict, every text with its meaning.
+func coqCmds(t *e2e.C11Test, logPath string) string {
+	if len(t.Cmds) == 0 {
+		return lib.App("Single", lib.Str(t.TestCmd(logPath)), coqCmd(t.Op, t.Arg))
+	}
+	es := []string{}
+	for _, a := range t.Cmds {
+		es = append(es, lib.Pair(lib.Str(a.Config), lib.Pair(lib.Str(t.AltCmd(a, logPath)), coqCmd(a.Op, a.Arg))))
+	}
+	return lib.App("PerConfig", lib.List(es))
+}
+
+func coqSrc(s *e2e.C11Spec, t *e2e.C11Test, logPath string) string {
 	files := []string{}
 	rf := s.RuntimeFiles(t)
 	for _, f := range rf {
@@ -479,8 +662,8 @@ func coqDef(s *e2e.C11Spec, t *e2e.C11Test, logPath string) string {
 		}
 		files = append(files, fmt.Sprintf("{| rf_role := %s; rf_dest := %s; rf_node := %s |}", role, lib.Str(f.Dest), coqNode(f.Node)))
 	}
-	return fmt.Sprintf("{| t_rule := %s; t_cmd := %s; t_files := %s; t_bin := %s |}",
-		lib.StrList(t.RuleFields(logPath)), coqCmd(t), lib.List(files), lib.Str(rf[0].Node.Content))
+	return fmt.Sprintf("{| ts_rule := %s; ts_cmds := %s; ts_files := %s; ts_bin := %s |}",
+		lib.StrList(t.RuleFields(logPath)), coqCmds(t, logPath), lib.List(files), lib.Str(rf[0].Node.Content))
 }
 
 func reportOf(o e2e.C11Outcome) string {
@@ -553,11 +736,11 @@ func classify(h history, i int, name string) string {
 	}
 	for j := i - 1; j >= 0; j-- {
 		o := h.Steps[j].Inc[name]
-		if !(o.Ran && o.Passed) {
+		if !(o.Ran && o.Passed) || len(h.Steps[j].Inv.Args) > 0 {
 			continue
 		}
 		for _, pt := range h.Steps[j].Spec.Tests {
-			if pt.Name != name || pt.TestCmd("") != ct.TestCmd("") || fmt.Sprint(pt.Data) != fmt.Sprint(ct.Data) {
+			if pt.Name != name || pt.EffectiveCmd(h.Steps[j].Inv.Config, "") != ct.EffectiveCmd(h.Steps[i].Inv.Config, "") || fmt.Sprint(pt.Data) != fmt.Sprint(ct.Data) {
 				continue
 			}
 			sameStreams, sameDests, dirNames := namesOnlyDifference(h.Steps[j].Spec.RuntimeFiles(pt), cur.RuntimeFiles(ct))
@@ -572,6 +755,17 @@ func classify(h history, i int, name string) string {
 	return "stale-test-result"
 }
 
+func invKind(inv e2e.C11Inv) string {
+	k := "plain"
+	if len(inv.Args) > 0 {
+		k = "with arguments"
+	}
+	if inv.Config != "" {
+		k += ", -c " + inv.Config
+	}
+	return k
+}
+
 func main() {
 	lib.Main("C11", func(c *lib.Ctx) {
 		c.Model("From PlzV Require Import Model.C11.", "C11.case", "C11.check")
@@ -579,7 +773,10 @@ func main() {
 			"also two sources for one destination; test command from a closed language: passif W / binok W / exists PATH / true / fail) under edit histories " +
 			"(data content flips pass<->fail, unrelated edits, test command changes, source changes with identical and with different binary, renames of a data " +
 			"dependency's output and of directory entries with the same content, data list changes, comments, reverts, deleting plz-out), with and without a " +
-			"directory cache; after every edit the real `plz test` is run and compared, per target, with `plz test` on a clean copy of the same tree. " +
+			"directory cache; also: data through filegroups of source files (outputs hard-linked to the sources) with changed files rewritten IN PLACE (same inode) " +
+			"or replaced (new inode); invocations with test arguments (`plz test //p:all -- good|bad`, commands argis W / argisnot W depend on them) mixed with plain ones; " +
+			"test_cmd as a per-config dict (opt/dbg/cover) with edits of the active and of inactive configs' commands, `-c dbg`, and dict <-> string form changes; " +
+			"after every edit the real `plz test` is run and compared, per target, with the same invocation on a clean copy of the same tree. " +
 			"distinct = distinct (history, step, target); non-trivial = a step after the first")
 		var plans []plan
 		plans = scriptedPlans(c.Thor)
@@ -591,6 +788,20 @@ func main() {
 		}
 		base := e2e.Scratch("c11")
 		defer os.RemoveAll(base)
+		if !e2e.C11XattrsWork(base) {
+			// without user xattrs plz cannot stamp a results file (every test re-runs) nor keep content hashes on outputs:
+			// the filegroup / in-place histories would be vacuous
+			c.Note("user xattrs do not work under %s: the filegroup-inplace histories are skipped", base)
+			kept := plans[:0]
+			for _, p := range plans {
+				if !strings.Contains(p.kind, "filegroup-inplace") {
+					kept = append(kept, p)
+				}
+			}
+			plans = kept
+		} else {
+			c.Note("user xattrs work under %s", base)
+		}
 		hs := make([]history, len(plans))
 		var wg sync.WaitGroup
 		for i := range plans {
@@ -638,18 +849,21 @@ func main() {
 						}
 					}
 					inc, fresh := st.Inc[name], st.Fresh[name]
-					stepTerm := fmt.Sprintf("{| s_rm := %s; s_def := %s |}", lib.Bool(st.Rm), coqDef(st.Spec, t, h.LogPath))
+					stepTerm := fmt.Sprintf("{| s_rm := %s; s_config := %s; s_args := %s; s_src := %s |}", lib.Bool(st.Rm), lib.Str(st.Inv.Config),
+						lib.StrList(st.Inv.Args), coqSrc(st.Spec, t, h.LogPath))
 					obsTerm := fmt.Sprintf("{| o_report := %s; o_fresh := %s; o_nkeys := %s |}", reportOf(inc), lib.Bool(fresh.Passed), lib.Nat(st.NKeys[name]))
 					items = append(items, lib.Pair(stepTerm, obsTerm))
-					sj := map[string]any{"history": h.Index, "kind": h.Kind, "cache_on": h.CacheOn, "step": i, "edit": st.Edit, "rm_plz_out": st.Rm, "test": t,
+					sj := map[string]any{"history": h.Index, "kind": h.Kind, "cache_on": h.CacheOn, "step": i, "edit": st.Edit, "rm_plz_out": st.Rm, "invocation": "plz " + strings.Join(st.Inv.PlzArgs(), " "),
+						"files_replaced": st.Replace, "rewritten_same_inode": st.SameIno, "test": t,
 						"runtime_files": st.Spec.RuntimeFiles(t), "incremental": inc, "fresh": fresh, "cache_keys": st.NKeys[name], "exit": st.Exit, "clean_exit": st.Clean}
 					js = append(js, sj)
-					in := st.Spec.RuntimeInputs(t, h.LogPath)
+					in := st.Spec.RuntimeInputs(t, st.Inv.Config, h.LogPath)
 					withHist := func() map[string]any {
 						m := map[string]any{"failing_step": sj}
 						edits := []any{}
 						for _, p := range h.Steps[:i+1] {
-							edits = append(edits, map[string]any{"edit": p.Edit, "rm_plz_out": p.Rm, "spec": p.Spec, "incremental": p.Inc[name]})
+							edits = append(edits, map[string]any{"edit": p.Edit, "rm_plz_out": p.Rm, "invocation": "plz " + strings.Join(p.Inv.PlzArgs(), " "),
+								"files_replaced": p.Replace, "rewritten_same_inode": p.SameIno, "spec": p.Spec, "incremental": p.Inc[name]})
 						}
 						m["history"], m["cache_on"], m["stderr"] = edits, h.CacheOn, st.Stderr
 						return m
@@ -664,12 +878,19 @@ func main() {
 					case !inc.Present || !fresh.Present:
 						c.Fail("no-result-reported", fmt.Sprintf("//p:%s has no suite in test_results.xml (incremental %v, fresh %v) after %v", name, inc.Present, fresh.Present, st.Edit), withHist())
 						continue
-					case fresh.Passed != st.Spec.Expected(t):
-						c.Fail("harness-semantics", fmt.Sprintf("//p:%s: fresh run passed=%v but the command language says %v", name, fresh.Passed, st.Spec.Expected(t)), withHist())
+					case fresh.Passed != st.Spec.ExpectedInv(t, st.Inv):
+						c.Fail("harness-semantics", fmt.Sprintf("//p:%s: fresh run passed=%v but the command language says %v", name, fresh.Passed, st.Spec.ExpectedInv(t, st.Inv)), withHist())
 					}
+					inv := "plz " + strings.Join(st.Inv.PlzArgs(), " ")
 					if inc.Passed != fresh.Passed {
-						c.Fail(classify(h, i, name), fmt.Sprintf("//p:%s after %v: incremental `plz test` reports passed=%v (cached=%v), a fresh run of the same tree passed=%v",
-							name, st.Edit, inc.Passed, inc.Cached, fresh.Passed), withHist())
+						cls := classify(h, i, name)
+						if len(st.Inv.Args) > 0 && !inc.Ran && inc.Passed && ranPassInputs[in] {
+							// the known defect: needToRun ignores the arguments and hands out the stored result of an
+							// ARGUMENT-LESS passing run with the current command and test directory
+							cls = "run-with-arguments-reuses-argumentless-result"
+						}
+						c.Fail(cls, fmt.Sprintf("//p:%s after %v: incremental `%s` reports passed=%v (cached=%v), the same invocation on a fresh copy of the same tree passed=%v",
+							name, st.Edit, inv, inc.Passed, inc.Cached, fresh.Passed), withHist())
 					}
 					c.Oracle()
 					if inc.Cached == inc.Ran {
@@ -685,17 +906,27 @@ func main() {
 						if cls == "stale-test-result" {
 							cls = "reused-without-passing-run"
 						}
-						c.Fail(cls, fmt.Sprintf("//p:%s after %v: a result was reused although no earlier run with the current test command and test directory passed", name, st.Edit), withHist())
+						c.Fail(cls, fmt.Sprintf("//p:%s after %v (`%s`): a result was reused although no earlier run WITHOUT test arguments with the current effective test command and test directory passed", name, st.Edit, inv), withHist())
 					}
-					if inc.Ran && inc.Passed {
+					if inc.Ran && inc.Passed && len(st.Inv.Args) == 0 {
 						ranPassInputs[in] = true
 					}
+					c.Hist("invocation", invKind(st.Inv))
+
 				}
 				c.Case(lib.App("CHist", lib.Bool(h.CacheOn), lib.List(items)), map[string]any{"history": h.Index, "kind": h.Kind, "test": name, "steps": js},
 					fmt.Sprint("case", h.Index, name), true)
 			}
 			// exit status of the whole invocation
 			for i, st := range h.Steps {
+				for f, same := range st.SameIno {
+					c.Hist("file-rewrite", map[bool]string{true: "in-place (same inode)", false: "replaced (new inode)"}[same])
+					c.Oracle()
+					if same == st.Replace {
+						c.Fail("harness-semantics", fmt.Sprintf("history %d step %d: %s files_replaced=%v but the inode stayed the same=%v", h.Index, i, f, st.Replace, same),
+							map[string]any{"history": h.Index, "step": i, "file": f})
+					}
+				}
 				c.Oracle()
 				all, allFresh := true, true
 				for _, o := range st.Inc {
